@@ -34,6 +34,12 @@ class ContainerAdapter(Hist1DAdapter):
                 v2 = vals.reshape(1, -1) if len(vals) else vals
                 w2 = None if w is None else (np.asarray(w).reshape(1, -1) if len(vals) else np.asarray(w))
                 real = self.physt.h1(v2, bins, weights=w2, **kw)
+            elif container in ("tuple2rows", "list2rows"):
+                # multi-dimensional input given as nested sequences: exactly two rows
+                rows = vals.reshape(2, -1)
+                cont = tuple(tuple(float(v) for v in r) for r in rows) if container == "tuple2rows" else [list(map(float, r)) for r in rows]
+                w2 = None if w is None else np.asarray(w).reshape(2, -1)
+                real = self.physt.h1(cont, bins, weights=w2, **kw)
             elif container in ("ndarray2d.F", "ndarray2d.T"):
                 # same entries, not C-contiguous in memory; without NaN also through the dropna=False path
                 if container == "ndarray2d.F":
